@@ -452,3 +452,37 @@ def no_unsafe_cuts(run, pid, rule, floor=1):
     from ..model import need
     need(n >= floor, f"anchor: {n} patterns found in the anchor files of {pid}, fewer than {floor}")
     return n
+
+
+def comp_as_loop(fn_node, acc="hits__comp"):
+    """body of a function that ends in `return [E for v in IT if c1 if c2]` (one generator) as the equivalent accumulate-in-a-loop
+    statements; None when the function has another shape.  Used by rules that judge a loop body, so that the comprehension spelling
+    of the same loop is judged by the same rule."""
+    from ..normalise import _clone
+    body = list(fn_node.body)
+    if not body or not isinstance(body[-1], ast.Return) or not isinstance(body[-1].value, ast.ListComp) or len(body[-1].value.generators) != 1:
+        return None
+    if any(isinstance(st, (ast.For, ast.While)) for st in body[:-1]):
+        return None
+    lc = body[-1].value
+    g = lc.generators[0]
+    app = ast.Expr(value=ast.Call(func=ast.Attribute(value=ast.Name(id=acc, ctx=ast.Load()), attr="append", ctx=ast.Load()), args=[_clone(lc.elt)], keywords=[]))
+    inner = [app]
+    if g.ifs:
+        test = _clone(g.ifs[0]) if len(g.ifs) == 1 else ast.BoolOp(op=ast.And(), values=[_clone(x) for x in g.ifs])
+        inner = [ast.If(test=test, body=[app], orelse=[])]
+    loop = ast.For(target=_clone(g.target), iter=_clone(g.iter), body=inner, orelse=[])
+    init = ast.Assign(targets=[ast.Name(id=acc, ctx=ast.Store())], value=ast.List(elts=[], ctx=ast.Load()))
+    ret = ast.Return(value=ast.Name(id=acc, ctx=ast.Load()))
+    out = body[:-1] + [init, loop, ret]
+    for st in (init, loop, ret):
+        for n in ast.walk(st):
+            if isinstance(n, (ast.expr, ast.stmt)):
+                n.lineno = body[-1].lineno
+                n.col_offset = 0
+                n.end_lineno = body[-1].lineno
+                n.end_col_offset = 0
+        for n in ast.walk(st):
+            for c in ast.iter_child_nodes(n):
+                c._parent = n
+    return out
